@@ -161,10 +161,11 @@ def run_history(ctx, mdib_path, rng, n_tx, hooks=(), scripts=None, instance_id=1
             k += 1
             bd = {d.Handle: d.mk_copy() for d in p.mdib.descriptions.objects}
             bs = {s.DescriptorHandle: s.mk_copy() for s in p.mdib.states.objects}
+            bc = {s.Handle: s.mk_copy() for s in p.mdib.context_states.objects}
             for h in hooks:
                 h.before(w, script)
             info = w.execute(script)
-            w.note_removed(bd, bs)
+            w.note_removed(bd, bs, bc)
             history.append(script)
             infos.append(info)
             for h in hooks:
